@@ -3,7 +3,8 @@
 
 def nontrivial(d):
     # at least one restriction below the train's own maximum speed
-    vmax = d["train"]["vmax"]
+    t = d["train"]
+    vmax = min([t["vmax"]] + [y["vmax"] for y in t.get("more", []) if y["n"] > 0])
     return any(abs(r[2]) < vmax for l in d["links"] for r in l["rs"])
 
 
@@ -18,11 +19,11 @@ def _corrupt(ev, delta, expect):
 
 
 RULE = ("cases = every configuration reached by TLC in the bounded SpeedProfile configs (restriction lists per link, "
-        "head/tail sets, gates, train length) + seeded random metre-scale layouts; distinct = distinct case "
+        "head/tail sets, gates, train make-up) + seeded random metre-scale layouts; distinct = distinct case "
         "descriptors (sha256); non-trivial = at least one restriction below the train's maximum speed")
 
 ASSUME = ["networks are materialised through Network::from_json (validation accepted them)",
-          "finite non-zero restriction speeds, negative values being the sign-encoded variant the simulator enforces by magnitude; one car type per train (gates compare n*car_mass, car_mass, n*axles)",
+          "finite non-zero restriction speeds, negative values being the sign-encoded variant the simulator enforces by magnitude; trains of one to three car types, a type possibly listed with 0 cars, optional explicit train length / towed mass: the spec derives length, maximum speed (slowest type present), towed mass, brakes and axles from the make-up itself (gates compare towed mass, towed mass / brakes by cross-multiplication, axles); no rotating mass",
           "step functions are compared at every breakpoint of either side (decides equality everywhere)"]
 
 GROUP = dict(
@@ -31,10 +32,12 @@ GROUP = dict(
     models={
         "quick": [dict(cfg="MCSpeedProfile_quickA.cfg", emit=True, max_emit=6000),
                   dict(cfg="MCSpeedProfile_gates.cfg", emit=True),
+                  dict(cfg="MCSpeedProfile_makeup.cfg", emit=True, max_emit=1500),
                   dict(cfg="MCSpeedProfile_quickN.cfg", emit=True, max_emit=1500),
                   dict(cfg="MCSpeedProfile_quickB.cfg", emit=False, timeout=300, coverage=False)],
         "thorough": [dict(cfg="MCSpeedProfile_quickA.cfg", emit=True),
                      dict(cfg="MCSpeedProfile_gates.cfg", emit=True),
+                     dict(cfg="MCSpeedProfile_makeup.cfg", emit=True),
                      dict(cfg="MCSpeedProfile_quickN.cfg", emit=True),
                      dict(cfg="MCSpeedProfile_quickB_emit.cfg", emit=True, max_emit=30000, workers=16, timeout=900, coverage=False),
                      dict(cfg="MCSpeedProfile_thoroughA.cfg", emit=False, workers=16, timeout=1800),
@@ -65,7 +68,7 @@ ENGINE = dict(name="SpeedProfile", path="specs/SpeedProfile.tla", serves_propert
                              "SpeedLimitTrainSim, recorded profiles validated by TLC (SpeedProfileTrace.tla)")
 _NOTE = ("Trusted: TLC, the JSON projection of PathTpc (serde), the harness materialisation of the abstract layout as a "
          "Network (validated by altrios itself). Bounded: exhaustive only up to the lattice bounds of the MC configs; "
-         "random metre-scale layouts beyond. One car type per train.")
+         "random metre-scale layouts beyond.")
 _TECH = "TLA+ spec + TLC model checking + spec->impl replay + TLC trace validation"
 MANIFEST = {
     "C02": dict(engine="SpeedProfile", design_ref="3 (C02 / C13)", technique=_TECH,
